@@ -26,6 +26,8 @@ ASSUMES = ["local dimension 2 (the dense solvers embed 2x2 operators)"]
 
 HEADER = "From Coq Require Import List. Import ListNotations.\nFrom Yaqs Require Import Model.SiteOrder."
 SOLVERS = [("TJM", 1), ("TJM", 2), ("MCWF", 1), ("Lindblad", 1)]
+# the integrator order is a setting of the tensor-network solver; the dense solvers must not care what it says
+DENSE_WITH_ORDER2 = [("MCWF", 2), ("Lindblad", 2)]
 
 
 def run_solver(solver, order, L, state_kw, H, nm, obs_specs, T=0.2, dt=0.05, num_traj=1, state_obj=None):
@@ -298,6 +300,14 @@ def search(ctx):
                          J=float(ctx.rng.uniform(0.5, 1.2)), g=float(ctx.rng.uniform(0.3, 0.9)), procs=procs,
                          reuse_after=[None, "Lindblad", None, "MCWF", None, "TJM"][k % 6], real_dtype=bool(k % 6 in (0, 2, 4))))
     # directed: the same basis state with real-dtype tensors through every back-end, with and without noise
+    for k, (solver, order) in enumerate(DENSE_WITH_ORDER2):
+        for noisy in (False, True):
+            if noisy and solver != "Lindblad":
+                continue
+            plan.append(dict(L=3, solver=solver, order=order, state={"state": "basis", "basis_string": "110"}, ham="heisenberg", hseed=0, J=0.9, g=0.5,
+                             procs=[{"name": "lowering", "sites": [0], "strength": 0.4}, {"name": "pauli_z", "sites": [2], "strength": 0.3}] if noisy else [],
+                             reuse_after=None))
+            ctx.count("dense_solver_with_order_2")
     for k, (solver, order) in enumerate(SOLVERS):
         plan.append(dict(L=3, solver=solver, order=order, state={"state": "basis", "basis_string": "100"}, ham="ising", hseed=0, J=1.0, g=0.7,
                          procs=[{"name": "lowering", "sites": [0], "strength": 0.3}] if solver == "Lindblad" else [], reuse_after=None, real_dtype=True))
